@@ -171,6 +171,32 @@ def merge_rules(run, R):
     """Line::merge / can_merge / Fragment::merge plumbing (shared with C05: box sides with dashed stretches
     must merge into one line, otherwise the box is not recognised)"""
     prog = run.prog
+    # ---------------- the collinearity predicate is an absolute bound
+    ic = [q for q in prog.bodies if q.endswith("util::is_collinear")]
+    if len(ic) != 1:
+        run.missing(R, "util::is_collinear")
+    else:
+        rets = [strip(r) for r in Expr(prog, ic[0]).returns()]
+        ok = False
+        why = "%d return expressions" % len(rets)
+        if len(rets) == 1 and rets[0][0] == "bin" and rets[0][1] in ("Lt", "Le", "Gt", "Ge"):
+            lhs, rhs = strip(rets[0][2]), strip(rets[0][3])
+            if rets[0][1] in ("Gt", "Ge"):
+                lhs, rhs = rhs, lhs
+            ps = set()
+            mentions(lhs, lambda z: z[0] == "param" and ps.add(z[1]) and False)
+            if rhs[0] == "const" and rhs[1] == "float" and 0 < float(rhs[2]) <= 0.0625 and ps == {1, 2, 3}:
+                ok = True
+                why = "f(a, b, c) %s %g" % ("<" if rets[0][1] in ("Lt", "Gt") else "<=", float(rhs[2]))
+            else:
+                why = "`%s`" % expr_str(rets[0])[:160]
+        if ok:
+            run.ok(R, "is_collinear is an absolute bound on a measure of the three points (%s)" % why, where(prog.bodies[ic[0]]),
+                   "an area bound below 1/16 keeps a perpendicular half-cell stub from ever being collinear with a line, however long the line")
+        else:
+            run.bad(R, "collinear-not-absolute", where(prog.bodies[ic[0]]),
+                    "util::is_collinear is not `measure(a, b, c) < constant` (%s): with a tolerance that grows with the length of the lines a perpendicular stub far from the "
+                    "start of a long line counts as collinear, is merged into it and the line comes out slanted" % why)
     # ---------------- M1 Line::merge
     lm = prog.method("merge", r"line::Line$", "")
     if not lm:
